@@ -7,7 +7,8 @@ Ties (all on REAL compiled artefacts, built from the repo's working tree by harn
      GV_SCHED)  vs  the Lean driver's flattened-machine trace  vs  native Go;
   I1 `case N:` / `$s = N` skeleton of every flattened MiniGo function of P' vs `GV.Flat.flatten`;
   I2 `$f = {...}` list = `$restore` list, and it contains every identifier assigned in the function and every model local;
-  I3 `Decl.Blocking` of every function of P and P' vs `GV.Blocking.blocking` on the generated call graph.
+  I3 `Decl.Blocking` of every function of P and P' vs `GV.Blocking.blocking` on the generated call graph;
+  I4 the variables boxed by `x = [x];` in every generated function of P and P' vs `GV.Escape.boxed` (escape-analysis rule).
 """
 import json
 import re
@@ -18,7 +19,8 @@ THEOREMS = ["propagate_lfp", "propagate_order_irrelevant", "flatten_labels_nodup
             "flatten_correct", "saved_complete", "flatten_correct_frame", "saved_incomplete_counterexample",
             "erase_correct", "machine_exec_sound", "interp_sound", "return_resume", "return_reeval_counterexample",
             "panic_resume_counterexample", "panic_resume_partial", "flatten_correct_defer_partial", "callDefF_sound",
-            "andor_flat", "args_order"]
+            "andor_flat", "args_order", "captured_cells_shared", "captured_write_visible", "boxing_rule_sufficient",
+            "boxing_header_skipped_counterexample"]
 
 MODV = 1009
 ZERO = 12          # pseudo variable: constant 0
@@ -547,6 +549,87 @@ def call_graph(g, with_yields):
                         if g.conds[c][5] is not None:
                             edges.append((me, "main.yb" if g.conds[c][5][0] == "&&" else "main.yf"))
     return intr, edges
+
+
+def box_items(g, fi):
+    """variables of function fi as the escape analysis sees them: list of (Go name, site, captured)
+    site: 0 param, 1 function level, 2 loop header (for-init variable, range key / value), 3 loop body"""
+    f = g.fns[fi]
+    objs = {}           # object key -> [name, site, captured]
+
+    def obj(env, slot):
+        if slot >= 8:
+            return None
+        return env.get(slot) or ("f", slot)
+
+    for slot in range(8):
+        if f["dfn"] and slot in (6, 7) and not f["dfn"]["named"]:
+            continue
+        if f["dfn"] and slot == 7 and f["dfn"]["nres"] == 1:
+            continue
+        objs[("f", slot)] = [vname(slot), 0 if slot == 0 else 1, False]
+
+    def cap(env, slot):
+        o = obj(env, slot)
+        if o is not None and o in objs:
+            objs[o][2] = True
+
+    def scan(stmts, env):
+        for st in stmts:
+            k = st[0]
+            if k == "{":
+                scan(st[1], env)
+            elif k == "I":
+                scan(st[2], env)
+                if st[3] is not None:
+                    scan([st[3]], env)
+            elif k == "W":
+                for _, b in st[2]:
+                    scan(b, env)
+                if st[3] is not None:
+                    scan(st[3], env)
+            elif k == "L":
+                scan(st[4], env)
+            elif k == "LC":
+                info = st[5]
+                env2 = dict(env)
+                for slot, nm in info["names"].items():
+                    key = ("lc", info["capid"], slot)
+                    site = 3 if nm.startswith("w") else 2
+                    objs[key] = [nm, site, False]
+                    env2[slot] = key
+                scan(st[4], env2)
+            elif k == "CAPDEF":
+                info = st[1]
+                for mode, name, aid in info["defs"]:
+                    dst, x, y = g.acts[aid][:3]
+                    if mode == "w-closure":
+                        for v in (dst, x, y):
+                            if v != ZERO:
+                                cap(env, v)
+                    elif mode == "w-ptr":
+                        cap(env, dst)
+                    else:
+                        cap(env, x)
+                cap(env, info["hold"][1])
+            elif k == "DEFER":
+                cl = g.dops[st[1]]
+                for o in cl["ops"]:
+                    if o[0] == "m":
+                        cap(env, o[1])
+                    elif o[0] == "p":
+                        cap(env, o[2])
+    scan(f["body"], {})
+    return list(objs.values())
+
+
+_BOXED = re.compile(r"(?<![\w$.])([A-Za-z_][\w$]*) = \[\1\];")
+
+
+def js_boxed(js):
+    """names boxed by `x = [x];` in a declaration (counter suffixes `$n` stripped), sorted multiset"""
+    body = _COMMENT.sub("", clean_js(js))
+    return sorted(re.sub(r"\$\d+$", "", n) for n in _BOXED.findall(body))
 
 
 def lfp(intr, edges):
@@ -1310,11 +1393,31 @@ def run_batch(chk, progs_, tier, rng, label, do_ities=True, sigfn=None, scheds_o
                         want.add(vname(g.calls[s[1]]["dst"]))
                     elif s[0] == "L" and s[3] is not None and s[3][0] == "a":
                         want.add(vname(g.acts[s[3][1]][0]))
-                want = {w for w in want if w.startswith("v")}
+                want = {w for w in want if w.startswith("v") and not (w in ("v4", "v5", "v6", "v7") and any(x[0] == "LC" for x in walk(f["body"])))}
                 saved = set(frames[0][2]) if frames else set()
                 chk.add_case("saved-model", "prog=%s fn=F%d" % (pid, fi), kindkey="saved-model")
                 if not want <= saved:
                     chk.add_tie_break("saved-frame", "prog=%s fn=F%d" % (pid, fi), sorted(saved), sorted(want))
+        # I4: escape-analysis boxing rule — which variables are boxed (`x = [x];`) vs GV.Escape.boxed
+        for variant, dl, gi in (("Pyield", res["q_decls"], 2 * n + 1), ("P", res["p_decls"], 2 * n)):
+            dd = {d["name"]: d for d in dl}
+            bset = graphs[gi][1]
+            bops, binfo = [], []
+            for fi, f in enumerate(g.fns):
+                d = dd.get("main.F%d" % fi)
+                if d is None or not d.get("js"):
+                    continue
+                items = box_items(g, fi)
+                bops.append("c02 box %d %s" % (1 if "main.F%d" % fi in bset else 0,
+                                                ",".join("%d.%d" % (it[1], 1 if it[2] else 0) for it in items) or "-"))
+                binfo.append((fi, d, items))
+            for (fi, d, items), a in zip(binfo, C.run_driver("C02", bops) if bops else []):
+                want = sorted(it[0] for it, b in zip(items, a.split(",")) if b == "1")
+                got = js_boxed(d["js"])
+                chk.add_case("boxing", "prog=%s %s fn=F%d %s" % (pid, variant, fi, got), nontrivial=bool(got),
+                             kindkey="boxing:%s" % ("some" if got else "none"))
+                if got != want:
+                    chk.add_tie_break("boxing-rule", "prog=%s variant=%s fn=F%d" % (pid, variant, fi), got, want)
         # I2 (artefact side): `$f` list == `$restore` list ⊇ assigned identifiers, for every blocking function
         for dl in (res["q_decls"], res["p_decls"]):
             for d in dl:
@@ -1385,7 +1488,9 @@ def run(tier, seed):
                 "unnamed and named results, 1-2 results, returns inside loops/switch, defers inside loops, panics recovered "
                 "by a yielding deferred closure (named results; the unnamed case is the recorded finding, replayed as a fixed "
                 "witness), results printed by the caller, all subsets of the yield sites inside deferred calls when <= 3 (5); "
-                "compared with the flattened-machine trace of the Lean driver (incl. the $24r / $callDeferred protocol model) "
+                "capture loops: for-init variables, range key/value and loop-body variables captured by closures / address-"
+                "taken before a yield and written/read on both sides after it, closures stored and called after the loop, "
+                "nested; compared with the flattened-machine trace of the Lean driver (incl. the $24r / $callDeferred protocol model) "
                 "and with native Go; a case is non-trivial when at least one site is enabled")
     chk.trusted = ["Lean 4.33 kernel; axioms at most propext, Classical.choice, Quot.sound",
                    "hand-written models GV.Model.Ctrl/Flat/Blocking tied to statements.go/functions.go/expressions.go/analysis by "
